@@ -88,10 +88,7 @@ theorem dcmd_encode_length (c : DCmd) (h : c.WF) : c.encode.length = c.size := b
     obtain ⟨_, _, _, _, hc⟩ := h
     cases count with
     | none => simp [DCmd.encode, DCmd.size, countLen]
-    | some c =>
-      have := (hc c rfl).1
-      have hne : c ≠ 0 := by omega
-      simp [DCmd.encode, DCmd.size, countLen, hne]
+    | some c => simp [DCmd.encode, DCmd.size, countLen]
   | init e data => simp [DCmd.encode, DCmd.size, encWords_length]
   | other c => exact encode_length c
 
@@ -138,12 +135,11 @@ theorem decodeR_encode (c : DCmd) (rest : Bytes) (h : c.WF) : DCmd.decodeR (c.en
       simp only [t1, r1, r2, ↓reduceIte, parByte_width w o hw, parByte_ops w o ho, hw, not_true_eq_false,
         show ¬ (12 < 4) by decide, show ¬ (12 - 4 > 8) by decide]
     | some c =>
-      obtain ⟨hc0, hc32⟩ := hc c rfl
-      have hne : c ≠ 0 := by omega
+      have hc32 := hc c rfl
       have hc' : c < 256 ^ 4 := by simpa using hc32
       have e : (DCmd.checkData w o a m (some c)).encode ++ rest =
           hdr Spec.cmdCHK_DAT 16 (parByte w o) ++ (be32 a ++ (be32 m ++ (be32 c ++ rest))) := by
-        simp [DCmd.encode, countLen, hne]
+        simp [DCmd.encode, countLen]
       have r3 : rdBE (hdr Spec.cmdCHK_DAT 16 (parByte w o) ++ (be32 a ++ (be32 m ++ (be32 c ++ rest)))) 12 4 = some c := by
         have := rdBE_at (hdr Spec.cmdCHK_DAT 16 (parByte w o) ++ be32 a ++ be32 m) rest 4 c 12 hc' (by simp)
         simpa [be32, List.append_assoc] using this
@@ -277,19 +273,17 @@ theorem dcd_export_wf (p : Nat) (cmds : List DCmd) (hp : p < 256) (hx : p ≠ 0x
   rw [this]
   omega
 
-/-! ### the Check Data quirk, stated -/
-/-- `CmdCheckData(…, count=0)`: 16 bytes are exported under a header length of 12 (= `size`), and `parse_command` of
-    the export yields the command WITHOUT a count — the round trip fails exactly on `count = some 0` -/
-theorem checkData_zero_count_breaks (w o a m : Nat) (hw : w ∈ Spec.widths) (ho : o < 4) (ha : a < 2 ^ 32)
+/-! ### Check Data with poll count 0 (fixed by 8656d83) -/
+/-- `CmdCheckData(…, count=0)`: the count is exported AND counted in the header length (16 = `size`), and
+    `parse_command` of the export gives the command back with `count = 0` — before 8656d83 the header said 12 and the
+    count was lost -/
+theorem checkData_zero_count_roundtrip (w o a m : Nat) (hw : w ∈ Spec.widths) (ho : o < 4) (ha : a < 2 ^ 32)
     (hm : m < 2 ^ 32) (rest : Bytes) :
-    (DCmd.checkData w o a m (some 0)).size = 12 ∧ (DCmd.checkData w o a m (some 0)).encode.length = 16 ∧
-    DCmd.decode ((DCmd.checkData w o a m (some 0)).encode ++ rest) = some (.checkData w o a m none) := by
+    (DCmd.checkData w o a m (some 0)).size = 16 ∧ (DCmd.checkData w o a m (some 0)).encode.length = 16 ∧
+    DCmd.decode ((DCmd.checkData w o a m (some 0)).encode ++ rest) = some (.checkData w o a m (some 0)) := by
   refine ⟨rfl, by simp [DCmd.encode, countLen], ?_⟩
-  have e : (DCmd.checkData w o a m (some 0)).encode ++ rest =
-      (DCmd.checkData w o a m none).encode ++ (be32 0 ++ rest) := by
-    simp [DCmd.encode, countLen]
-  rw [e]
-  exact (dcmd_roundtrip (.checkData w o a m none) _ ⟨hw, ho, ha, hm, by intro c hc; cases hc⟩).1
+  exact (dcmd_roundtrip (.checkData w o a m (some 0)) _
+    ⟨hw, ho, ha, hm, by intro c hc; injection hc with hc; subst hc; decide⟩).1
 
 /-! ### boot data -/
 theorem bdt_roundtrip_aux (s l p : Nat) (rest : Bytes) (hs : s < 2 ^ 32) (hl : l < 2 ^ 32) (hp : p ≤ 2) :
